@@ -1055,6 +1055,42 @@ func (st *lsmState) resurrectClass(x *seqExec, k string, got, want readObs, clas
 	return class
 }
 
+// managedResurrectClass refines the failure class of known finding F18: in managed mode a delete
+// marker at version V was physically dropped by a compaction (it is at or below the discard
+// timestamp and nothing BELOW it overlaps), while an older version of the key that the caller
+// committed LATER (non-monotonic timestamps) sits above it in a memtable / upper level and is now
+// what a read at >= V returns.  The class applies only when all of that is the case: the model reads
+// deleted, the value read is an older version written after the delete marker, and the marker is no
+// longer anywhere in the tree.
+func (st *lsmState) managedResurrectClass(x *seqExec, k string, ts uint64, got, want readObs, class string) string {
+	if want.Val != "<nil>" || got.Val == "<nil>" {
+		return class
+	}
+	delIdx, delTs := -1, uint64(0)
+	for i, w := range st.writes {
+		if w.Key == k && w.Ts <= ts && w.Ts >= delTs {
+			delTs = w.Ts
+			if w.Del {
+				delIdx = i
+			} else {
+				delIdx = -1
+			}
+		}
+	}
+	if delIdx < 0 || delTs > st.discard {
+		return class
+	}
+	if strings.Contains(shapeString(x.db), fmt.Sprintf("%s@%d:", k, delTs)) {
+		return class // the marker is still there: something else is wrong
+	}
+	for i, w := range st.writes {
+		if w.Key == k && !w.Del && w.Ts == got.Ver && w.Ts < delTs && i > delIdx {
+			return "deleted-key-resurrected/managed-older-version-committed-after-dropped-tombstone"
+		}
+	}
+	return class
+}
+
 func fmtObs(o readObs) string { return fmt.Sprintf("{%s v%d}", shortVal(o.Val), o.Ver) }
 
 // lsmCheckReadsNormal: normal mode.  A fresh transaction sees the latest state; every open
@@ -1108,7 +1144,7 @@ func lsmCheckReads(x *seqExec) (string, string) {
 		for _, k := range st.keys {
 			want := st.modelRead(k, ts)
 			if got := get[k]; got != want {
-				return "read-changed/get", fmt.Sprintf("Get(%q)@%d = %v, model %v (discardTs %d)\n  lsm: %s", k, ts, got, want, st.discard, shapeString(x.db))
+				return st.managedResurrectClass(x, k, ts, got, want, "read-changed/get"), fmt.Sprintf("Get(%q)@%d = %v, model %v (discardTs %d)\n  lsm: %s", k, ts, got, want, st.discard, shapeString(x.db))
 			}
 			for name, m := range map[string]map[string]readObs{"forward": fwd, "reverse": rev} {
 				got, ok := m[k]
@@ -1116,7 +1152,7 @@ func lsmCheckReads(x *seqExec) (string, string) {
 					got = readObs{Val: "<nil>"}
 				}
 				if got != want {
-					return "read-changed/iter", fmt.Sprintf("%s iterator key %q@%d = %v, model %v (discardTs %d)\n  lsm: %s", name, k, ts, got, want, st.discard, shapeString(x.db))
+					return st.managedResurrectClass(x, k, ts, got, want, "read-changed/iter"), fmt.Sprintf("%s iterator key %q@%d = %v, model %v (discardTs %d)\n  lsm: %s", name, k, ts, got, want, st.discard, shapeString(x.db))
 				}
 			}
 		}
